@@ -54,6 +54,9 @@ func c10Offenders() []c10Offender {
 		{Name: "rule-file-is-a-link-to-a-file-of-the-package", Nodes: []gen.NodeSpec{f("rules.txt"), l(".terraformignore", "rules.txt")}},
 		{Name: "rule-restated-after-its-exception", Nodes: []gen.NodeSpec{f("mod/a.log"), f("keep/a.log"), f("keep/b.txt")}, Rules: "*.log\n!keep/a.log\n*.log\n"},
 		{Name: "built-in-rule-restated", Nodes: []gen.NodeSpec{f(".terraform/modules/m/main.tf"), f(".terraform/x")}, Rules: ".terraform/\n"},
+		{Name: "ignored-directory-with-links-to-things-outside-the-bundle", Nodes: []gen.NodeSpec{l("tmp/to-file", "../../../outside-file"), l("tmp/to-dir", "../../../outside-dir"), l("tmp/sub/to-private", "../../../../outside-dir/private.txt"), f("tmp/sub/x")}, Rules: "tmp/\n"},
+		{Name: "default-ignored-directory-with-links-to-things-outside", Nodes: []gen.NodeSpec{l(".git/objects/alt", "../../../../outside-dir"), l(".terraform/plugin-cache", "../../../outside-dir"), f(".git/HEAD")}},
+		{Name: "nested-double-star-rule", Nodes: []gen.NodeSpec{f("mod/examples/x/prod.tfvars"), f("examples/y/prod.tfvars"), f("examples/top.tfvars"), f("mod/keep.tf"), f("docs/a/b/c.md"), f("mod/docs/d.md")}, Rules: "examples/**/*.tfvars\ndocs/**\n"},
 		{Name: "fifo", Nodes: []gen.NodeSpec{{Path: "mod/pipe", Kind: "fifo", Mode: 0644}}, Bad: true},
 		{Name: "socket", Nodes: []gen.NodeSpec{{Path: "sock", Kind: "sock", Mode: 0644}}, Bad: true},
 		{Name: "link-to-fifo", Nodes: []gen.NodeSpec{{Path: "mod/pipe2", Kind: "fifo", Mode: 0644}, l("to-pipe", "mod/pipe2")}, Bad: true},
@@ -197,6 +200,8 @@ func c10Run(env *fw.Env, off c10Offender, position int, extra *c10Offender) fw.R
 		return fw.Result{Verdict: fw.Inconclusive, Msg: err.Error()}
 	}
 	mustWrite("/c10/outside-file", "OUTSIDE-file", 0644)
+	mustWrite("/c10/outside-dir/private.txt", "OUTSIDE-private", 0600)
+	os.Chmod("/c10/outside-dir", 0750)
 	mustWrite("/c10/sibling-data", "OUTSIDE-sibling", 0644)
 	mustWrite("/etc/passwd", "OUTSIDE-passwd", 0644)
 	target := "/c10/bundle"
@@ -343,7 +348,7 @@ func init() {
 	fw.Register(&fw.Property{
 		ID:    "C10",
 		Level: "exploration",
-		Rule: "a three-package world (added package -> remote dependency, -> registry target) is built inside a chroot arena; one of 36 shapes is planted in one package (exhaustive x 3 positions) or two shapes in two packages (all ordered pairs): clean relative links and chains, links to a sibling / out of the bundle / absolute / to the manifest / dangling / looping / through the directory's own name, fifos, sockets, links to fifos, offenders hidden by ignore rules, links into ignored directories sorted before and after the directory, re-included files, rule files with negations. " +
+		Rule: "a three-package world (added package -> remote dependency, -> registry target) is built inside a chroot arena; one of 39 shapes is planted in one package (exhaustive x 3 positions) or two shapes in two packages (all ordered pairs): clean relative links and chains, links to a sibling / out of the bundle / absolute / to the manifest / dangling / looping / through the directory's own name, fifos, sockets, links to fifos, offenders hidden by ignore rules, links into ignored directories sorted before and after the directory, re-included files, rule files with negations. " +
 			"Independent expectation: the tree is materialised by the harness, reference-excluded paths are removed, remaining links are resolved physically; an offender left => the build must fail, otherwise it must succeed and every package directory of the bundle must contain only files, directories and links resolving to an existing file/directory inside it, no reference-excluded file, no .tmp-* directory; snapshot diff around the target directory. non-trivial = every case; distinct = shapes x position",
 		Assumptions: []string{"a link into an ignored (and therefore removed) directory is a dangling link of the finished package", "links to in-package directories are not part of the universe (hashing them fails today; either outcome would be acceptable)"},
 		Phases:      []*fw.Phase{single, aliased, pairs},
